@@ -225,7 +225,7 @@ func (x *Exec) arrEqOnOld(old *State, name string, cur, oldT Term) Term {
 		return Eq(cur, oldT)
 	}
 	alloc := old.hgetPure("alloc", SArr(SRef, SBool))
-	return Term{fmt.Sprintf("(forall ((r!f Ref)) (! (=> (select %s r!f) (= (select %s r!f) (select %s r!f))) :pattern ((select %s r!f))))", alloc.S, cur.S, oldT.S, cur.S), SBool}
+	return Term{fmt.Sprintf("(forall ((r!f Ref)) (! (=> (select %s (rootof r!f)) (= (select %s r!f) (select %s r!f))) :pattern ((select %s r!f))))", alloc.S, cur.S, oldT.S, cur.S), SBool}
 }
 
 // checkFrame: every heap array written on this path is unchanged outside the modifies clause,
@@ -265,7 +265,7 @@ func (x *Exec) checkFrame(fr *Frame, st *State, env *SpecEnv, ct *Contract) {
 		for _, t := range allowed[name] {
 			excl = append(excl, Not(Eq(Term{"r!f", SRef}, t)))
 		}
-		cond := And(append([]Term{Select(alloc0, Term{"r!f", SRef})}, excl...)...)
+		cond := And(append([]Term{Select(alloc0, app(SRef, "rootof", Term{"r!f", SRef}))}, excl...)...)
 		goal := Term{fmt.Sprintf("(forall ((r!f Ref)) (=> %s (= (select %s r!f) (select %s r!f))))", cond.S, cur.S, init.S), SBool}
 		props := []string{"C05"}
 		if len(ct.Ensures) > 0 {
